@@ -255,6 +255,9 @@ func genC15(rng *rand.Rand, tier string) (cases []string) {
 	}
 	for i := 0; i < n; i++ {
 		limit := pick(rng, 0, 1, 2, 3, 5, 8, 13, rng.IntN(40))
+		if v, ok := dictInt(rng, 0, 600); ok && rng.IntN(12) == 0 {
+			limit = int(v)
+		}
 		ncalls := rng.IntN(8)
 		if rng.IntN(2) == 0 {
 			var cs []string
